@@ -506,3 +506,76 @@ func (c *Ctx) normIn(st stepRef, v ssa.Value) ssa.Value {
 	}
 	return strip(c.downValue(c.upIn(st, v), 0))
 }
+
+// originsDeep: origins, looking through first-party helper calls into the values they return
+// (depth <= 2; zero-value placeholders on error paths are ignored).
+func (c *Ctx) originsDeep(v ssa.Value, depth int, stop ...string) []Origin {
+	var out []Origin
+	for _, o := range origins(v) {
+		if o.Kind == "call" && depth < 2 && !isCall(o.Call, stop...) {
+			if call, ok := o.Call.(*ssa.Call); ok {
+				if cal := call.Call.StaticCallee(); cal != nil && IsFirstParty(cal) && cal.Blocks != nil {
+					expanded := false
+					for _, r := range returnsOf(cal) {
+						if o.Index >= len(r.Results) {
+							continue
+						}
+						rv := unspill(r.Results[o.Index])
+						if k, isC := strip(rv).(*ssa.Const); isC && isZeroConst(k) {
+							continue
+						}
+						out = append(out, c.originsDeep(rv, depth+1, stop...)...)
+						expanded = true
+					}
+					if expanded {
+						continue
+					}
+				}
+			}
+		}
+		out = append(out, o)
+	}
+	return out
+}
+
+// scopedCall: an interface-method call found in root or in a first-party helper root calls
+// statically; args are translated into root's frame where they are the helper's parameters.
+type scopedCall struct {
+	call *ssa.Call
+	args []ssa.Value
+}
+
+func (c *Ctx) invokesInScope(root *ssa.Function, method string, depth int) []scopedCall {
+	var out []scopedCall
+	for _, ci := range callsIn(root) {
+		call, ok := ci.(*ssa.Call)
+		if !ok {
+			continue
+		}
+		if call.Call.IsInvoke() {
+			if call.Call.Method.Name() == method {
+				out = append(out, scopedCall{call, append([]ssa.Value(nil), call.Call.Args...)})
+			}
+			continue
+		}
+		callee := call.Call.StaticCallee()
+		if callee == nil || !IsFirstParty(callee) || callee.Blocks == nil || depth >= 2 || callee == root {
+			continue
+		}
+		for _, sc := range c.invokesInScope(callee, method, depth+1) {
+			args := make([]ssa.Value, len(sc.args))
+			for i, a := range sc.args {
+				args[i] = a
+				if p, ok := strip(a).(*ssa.Parameter); ok {
+					for j, q := range callee.Params {
+						if q == p && j < len(call.Call.Args) {
+							args[i] = call.Call.Args[j]
+						}
+					}
+				}
+			}
+			out = append(out, scopedCall{sc.call, args})
+		}
+	}
+	return out
+}
